@@ -449,9 +449,10 @@ def replay_history(init, hist, work, check_last_only=True):
 
 # ------------------------------------------------------------------------------------------ BFS
 def plan(tier, seed):
-    depth = 4 if tier == "quick" else 5
     shards = []
-    for init in INITS:
+    for ii, init in enumerate(INITS):
+        # quick: depth 4 from two of the five initial tables (which two rotates with the seed), depth 3 from the others; thorough: depth 5
+        depth = 5 if tier != "quick" else (4 if (ii - seed) % len(INITS) in (0, 2) else 3)
         for o1 in range(len(OPS)):
             shards.append(("bfs", init, o1, depth))
     k = seed % len(shards)
